@@ -187,6 +187,14 @@ func genC12(seed uint64, idx int, tier string) *Scenario {
 				a.Ops = append(a.Ops, o)
 				gated()
 			}
+			if r.Chance(0.25) {
+				// the connection is upgraded to TLS in band at some point of the dialogue - also between a USER and
+				// its PASS: what was (not) achieved before the upgrade is what holds after it
+				pos := r.Intn(len(a.Ops) + 1)
+				up := []Op{SendOp([]byte("AUTH TLS\r\n"), nil, "AUTH TLS"), {K: "starttls"}}
+				a.Ops = append(a.Ops[:pos:pos], append(up, a.Ops[pos:]...)...)
+				sc.Params["ftp_tls"] = true
+			}
 			a.Ops = append(a.Ops, Op{K: "close"})
 			sc.Actors = append(sc.Actors, a)
 		}
